@@ -21,6 +21,7 @@ import (
 	"sort"
 	"strings"
 	"sync"
+	"time"
 
 	"github.com/benhoyt/goawk/interp"
 	"github.com/benhoyt/goawk/parser"
@@ -652,6 +653,7 @@ type c12Verdict struct {
 	Finding string
 	Got     string
 	Want    string
+	Envs    []string // stream herm: the host environments that show the failure (the replay is narrowed to them)
 }
 
 func c12Oracle(cs *c12Case, obs *c12Obs) (bad []c12Verdict, attempts int, swallowed int) {
@@ -874,6 +876,12 @@ func c12Oracle(cs *c12Case, obs *c12Obs) (bad []c12Verdict, attempts int, swallo
 		case "close":
 			delete(open, op.N)
 		}
+	}
+	if failing >= 0 && failing < len(ops) && c12ErrCode(obs.Err) == "noFileReads" && regularOperands == 0 &&
+		(ops[failing].K == "main" || ops[failing].K == "first" || ops[failing].K == "gl") {
+		bad = append(bad, c12Verdict{What: fmt.Sprintf("operation %d (%s) ended the run with the NoFileReads error although no operand names a file: "+
+			"standard input (operand \"-\" or the default input) is not a file and must stay available", failing, ops[failing].K),
+			Got: obs.Err + " operands=" + fmt.Sprintf("%q", cs.effArgsIf(ruleRan)), Want: "no NoFileReads error"})
 	}
 	if cs.NoReads && obs.Err == "" && regularOperands > 0 && hasMain {
 		bad = append(bad, c12Verdict{What: "NoFileReads is set, the operands name a file, and the run ended without an error",
@@ -1396,7 +1404,13 @@ func runC12(c *vh.Ctx) {
 		"and END drawn from print >, print >>, print |, getline <, cmd | getline, system, un-redirected getline, close, fflush (and the " +
 		"pattern-action loop over the operands); names come from a small pool (new files, existing files, a missing file, an unwritable " +
 		"path, \"-\", /dev/stdout, /dev/stderr, \"\", commands) and are re-used across roles; every name is computed at run time in one of " +
-		"five spellings; non-trivial = at least one deny flag is set and at least one operation reaches the I/O dispatch")
+		"five spellings; non-trivial = at least one deny flag is set and at least one operation reaches the I/O dispatch. " +
+		"Stream dash (oracle only): operand lists and ARGV/ARGC edits with \"-\" at every position (first, after var=value, after a file, twice, set " +
+		"in BEGIN, with ARGC raised or lowered, a real file merely named \"-\") x 8 flag combinations x OpenFile present/absent x getline < \"-\" / " +
+		"getline line < \"-\" in BEGIN / rule / END; non-trivial = NoFileReads set and standard input is named or is the default. " +
+		"Stream herm (oracle only, metamorphic): a program touching files through every file form, a table of OpenFile answers per path and per " +
+		"k-th open (10 kinds), run in 2-7 host environments differing only in what the named paths are on the real file system; non-trivial = " +
+		"OpenFile is called at least once")
 	var cases []c12Case
 	if c.ReplayFile != "" {
 		b, err := os.ReadFile(c.ReplayFile)
@@ -1405,16 +1419,46 @@ func runC12(c *vh.Ctx) {
 		}
 		var wrap struct {
 			Failure struct {
-				Case c12Case `json:"case"`
+				Case json.RawMessage `json:"case"`
 			} `json:"failure"`
 		}
-		var direct c12Case
-		if json.Unmarshal(b, &wrap) == nil && (len(wrap.Failure.Case.Begin)+len(wrap.Failure.Case.End)+len(wrap.Failure.Case.Args) > 0) {
-			cases = []c12Case{wrap.Failure.Case}
-		} else if json.Unmarshal(b, &direct) == nil {
-			cases = []c12Case{direct}
+		raw := json.RawMessage(b)
+		if json.Unmarshal(b, &wrap) == nil && len(wrap.Failure.Case) > 0 {
+			raw = wrap.Failure.Case
 		}
+		var which struct {
+			Stream string `json:"stream"`
+		}
+		json.Unmarshal(raw, &which)
+		switch which.Stream {
+		case "dash":
+			var cs c12DashCase
+			if err := json.Unmarshal(raw, &cs); err != nil {
+				panic(err)
+			}
+			runC12Dash(c, &cs)
+			return
+		case "herm":
+			var cs c12HermCase
+			if err := json.Unmarshal(raw, &cs); err != nil {
+				panic(err)
+			}
+			runC12Herm(c, &cs)
+			return
+		}
+		var direct c12Case
+		if err := json.Unmarshal(raw, &direct); err != nil {
+			panic(err)
+		}
+		cases = []c12Case{direct}
 	} else {
+		// the two streams without child processes first: they are fast, and a failing input found there is reported even if the
+		// machine is too loaded for the process-starting stream to finish in time
+		t0 := time.Now()
+		runC12Dash(c, nil)
+		t1 := time.Now()
+		runC12Herm(c, nil)
+		c.Note(fmt.Sprintf("wall: stream dash %.1fs, stream herm %.1fs", t1.Sub(t0).Seconds(), time.Since(t1).Seconds()))
 		cases = c12Corpus()
 		nCorpus := len(cases)
 		for i, n := 0, c.N(500, 8000); i < n; i++ {
